@@ -35,6 +35,7 @@ type Obligation struct {
 	replay        *Replay
 	Output        string
 	Script        []string
+	SolverErr     string // the primary solver rejected the query text (a defect of the generator, not of the code)
 }
 
 type State struct {
